@@ -193,7 +193,7 @@ __CPROVER_decreases(prm.maxiter - iter)
 BICG_CMP = Cmp(r'(?:\(\w+ = norm\(\*?\w+\)\)|\b(?:eps|res)\b)', '+')
 
 bicgstab = Unit(
-    name='solver_bicgstab', props=['C01', 'C15', 'C10'],
+    name='solver_bicgstab', props=['C01', 'C05', 'C15', 'C10'],
     functions=['solver::bicgstab<Backend>::operator()(A, P, rhs, x)'],
     desc='BiCGStab solve body: budget; reported residual = norm of the vector written by the last residual update (s or r) / ||rhs||; '
          'each x update paired with a residual update; left/right preconditioning; breakdown throws; workspace never read before written; '
@@ -448,7 +448,7 @@ GM_NOT_DECIDED = ['that the Arnoldi / Givens recurrences minimise the residual (
                   'written-before-read of the Hessenberg matrix H (index safety of H is proved)']
 
 gmres = Unit(
-    name='solver_gmres', props=['C01', 'C15', 'C10'],
+    name='solver_gmres', props=['C01', 'C05', 'C15', 'C10'],
     functions=['solver::gmres<Backend>::operator()(A, P, rhs, x)'],
     desc='GMRES(M) solve body: budget; on every exit path the reported residual is the norm of residual(rhs, A, x) (left: P applied) of the RETURNED x; '
          'x advanced once per restart cycle by lin_comb over the basis; basis vectors / H, s, cs, sn never read before written in this call; '
